@@ -299,6 +299,7 @@ def run(eng, rep):
                 "replaces or re-samples records must touch all record arrays with one index expression (T4 coherence); sample counts are set to 1 exactly on "
                 "replace/append and incremented by 1 exactly where a residual is averaged; every stored objective is sumsq(residual)[+h] (shared with C03-5); "
                 "complete decision tables (ordering, ties, NaN, None) for incumbent moves and the final selection (T6); every store to kopt is bounded by npt().")
+    rep.explain("Also decided: the re-selection after a re-sample is guarded only by 'not all NaN' and lies on every path to a normal exit (C17-4b); the saved record never aliases live arrays (C17-6); extra samples go to the slot of their point (C17-7); append helpers are recognised structurally.")
     rep.not_decided += ["'the stored residual is the arithmetic mean of its samples': the running-mean update t*old + (1-t)*new, t = n/(n+1), is a rational identity, not an affine one; declined as a frozen-formula match"]
     rule_parallel_arrays(eng, rep)
     A = anchors(eng)
